@@ -157,8 +157,10 @@ def r6_target_derivation(ctx):
         for d in body.defs().get(l, []):
             t_ = o._def(d, (), 0, frozenset())
             from .common import phi_alts
-            direct = all((isinstance(a, tuple) and a[0] == "agg" and a[2] in ("Some", "None")) or is_call_term(a, "::to_string", "::trim", "::strip_prefix", "::to_owned", "::clone") for a in phi_alts(t_))
-            if direct and any(is_call_term(s, "str::strip_prefix", "::strip_prefix") for s in subterms(t_)) and d[0] in ("assign", "call"):
+            # the value itself (not something a function of this crate computed from it, like split_host_port's result)
+            direct = not any(isinstance(a, tuple) and a[0] == "call" and a[1].startswith(("client::", "server::", "util::", "session::", "padding::", "protocol::")) for a in phi_alts(t_))
+            from .common import depends_on_var
+            if direct and depends_on_var(o, t_, param(body, 2)) and not depends_on_var(o, t_, tgt) and d[0] in ("assign", "call"):
                 # only assignments to the variable that feeds split_host_port (the destination host)
                 host_defs.append((l, d))
     shp_all = calls_norm(body, "http_proxy::split_host_port")
@@ -172,12 +174,7 @@ def r6_target_derivation(ctx):
     n_h = 0
     for l, d in host_defs:
         # is this String the one handed to split_host_port (possibly through a phi)?
-        if not any("strip_prefix" in a for a in dest_alts):
-            continue
         defs_block = d[1]
-        feeds = any(("strip_prefix" in a) for a in dest_alts)
-        if not feeds:
-            continue
         # the destination variable itself is the one whose defs include String::new() and to_string(index(target..))
         others = [o._def(x, (), 0, frozenset()) for x in body.defs().get(l, [])]
         if not any(any(is_call_term(s, "::index") for s in subterms(t2)) or is_call_term(t2, "String::new") for t2 in others):
